@@ -3,7 +3,7 @@
    (Ref/Stream.v), so the error it reports is the first defect in byte order by construction; the
    crate's model reports exactly that error.  Declarative characterisations: Proofs/RefSpec.v. *)
 From BS Require Import Impl.Visit Ref.Grammar Ref.MetaDefs Proofs.CsDec Proofs.ImplRefLeaf Proofs.Transfer Proofs.Entries
-  Proofs.SpecLemmas Proofs.RefSpec Proofs.ImplRefTx Proofs.ErrSpec.
+  Proofs.SpecLemmas Proofs.RefSpec Proofs.ImplRefTx Proofs.ErrSpec Proofs.ImplRefLists Proofs.Propagation Proofs.EvTransfer.
 Open Scope N_scope.
 
 (* the model of the crate fails with error e exactly when the reference decoder fails with e,
@@ -59,3 +59,25 @@ Theorem C14_only_format_errors : forall E, covered E -> forall p b h e h', e_D E
   e_visit E never (sl p b) h = (Err e, h') ->
   e = MoreBytesNeeded \/ e = NonMinimalVarInt \/ e = SegwitFlagWithoutWitnesses \/ exists x, e = UnknownSegwitFlag x.
 Proof. exact never_run_errors. Qed.
+
+(* the first defect in byte order at depth: an output list fails with e exactly when its count fails
+   with e, or, after some complete well-formed outputs, the NEXT output fails with e at its offset *)
+Theorem C14_output_list_first_defect : forall p b h e h', In63 b ->
+  (visit_txouts never (sl p b) h = (Err e, h') <->
+   (r_compact never (st0 p b h) = Fail e h /\ h' = h) \/
+   (exists n done rest, n < TWO64 /\ lenN done < n /\ Forall wf_txout done /\
+      b = cs_enc n ++ flat_map enc_txout done ++ rest /\
+      r_txout_ev (lenN done) never
+        (st0 (p + cs_width n + lenN (flat_map enc_txout done)) rest (rev (trav_txouts_part p n done) ++ h)) = Fail e h' /\
+      h' = rev (trav_txouts_part p n done) ++ h)).
+Proof. exact txouts_fail_iff_impl. Qed.
+
+(* a bad varint inside output j of transaction i of a block (the transaction legacy-encoded): the block
+   is rejected with NonMinimalVarInt, having delivered exactly the traversal of everything before that output *)
+Theorem C14_nested_nonminimal_varint : forall p h hdr pre post t opre opost o rest,
+  wf_block {| ab_header := hdr; ab_txs := pre ++ t :: post |} -> at_form t = Legacy -> at_outs t = opre ++ o :: opost ->
+  lenN (ao_spk o) < 253 ->
+  let b := patched_block_legacy (xfd :: le_enc 2 (lenN (ao_spk o))) hdr pre t opre o opost post ++ rest in
+  InLen b ->
+  visit_block never (sl p b) h = (Err NonMinimalVarInt, rev (nn_before p hdr pre post t opre opost o) ++ h).
+Proof. exact nested_nonminimal_impl. Qed.
